@@ -28,17 +28,23 @@ type gor struct {
 	call    int
 	ret     int
 	started bool
+	parkRNG *sim.RNG // generated scheduling points: this goroutine's own stream decides where it parks
+	spins   int      // failed attempts to take the lock since it last executed a statement
+	failAt  int64    // value of the scheduler's progress counter at its last failed attempt
 }
 
 // sched releases exactly one goroutine at a time and waits for quiescence:
 // every goroutine is parked at a yield, finished, or observed (through the
 // runtime's wait reason) to be blocked on the manager's mutex.
 type sched struct {
-	mu    sync.Mutex
-	byGo  map[int64]*gor
-	gs    []*gor
-	polls int64
-	fault string
+	parkP     float64 // probability of parking at a generated scheduling point
+	mainSpins int
+	progress  int64 // statements executed and operations finished, by anybody
+	mu        sync.Mutex
+	byGo      map[int64]*gor
+	gs        []*gor
+	polls     int64
+	fault     string
 }
 
 func curGoid() int64 { return sim.GoID() }
@@ -60,14 +66,51 @@ func (s *sched) yield(label string) {
 	g.park(label)
 }
 
+// yieldGen is installed as the scheduling point of the generated copy
+// (every statement of seat_manager): the goroutine parks there with
+// probability parkP, decided by its own stream.
+func (s *sched) yieldGen(fid int) {
+	g := s.lookup()
+	if g == nil || g.parkRNG == nil {
+		return
+	}
+	g.spins = 0
+	atomic.AddInt64(&s.progress, 1)
+	if g.parkRNG.Chance(s.parkP) {
+		g.park("gen:" + genFuncName(fid))
+	}
+}
+
+// blocked is installed as the generated copy's "could not take the lock"
+// point: the goroutine parks and tries again when it is released next.
+func (s *sched) blocked() {
+	g := s.lookup()
+	if g == nil {
+		// the simulator's own goroutine: it only calls into the seat manager
+		// when nothing is in flight
+		s.mainSpins++
+		if s.mainSpins > 200000 {
+			panic("harness: the seat manager's lock is held by a parked operation while the simulator itself calls into it")
+		}
+		runtime.Gosched()
+		return
+	}
+	g.spins++
+	g.failAt = atomic.LoadInt64(&s.progress)
+	g.park("blocked")
+}
+
 func (g *gor) park(label string) {
 	g.label = label
 	atomic.StoreInt32(&g.state, gParked)
 	<-g.resume // the scheduler has already marked the goroutine running
 }
 
-func (s *sched) spawn(id int, op opSpec, do func(opSpec) opResult) *gor {
+func (s *sched) spawn(id int, op opSpec, do func(opSpec) opResult, parkSeed uint64) *gor {
 	g := &gor{id: id, op: op, resume: make(chan struct{}), call: -1, ret: -1}
+	if parkSeed != 0 {
+		g.parkRNG = sim.NewRNG(parkSeed)
+	}
 	ready := make(chan struct{})
 	go func() {
 		g.goid = curGoid()
@@ -77,6 +120,7 @@ func (s *sched) spawn(id int, op opSpec, do func(opSpec) opResult) *gor {
 		close(ready)
 		g.park("start")
 		g.res = do(g.op)
+		atomic.AddInt64(&s.progress, 1)
 		atomic.StoreInt32(&g.state, gFinished)
 	}()
 	<-ready
